@@ -39,7 +39,7 @@ type memKey struct {
 	typ int64
 }
 
-func (k memKey) String() string { return fmt.Sprintf("%d/%s/%s/%d", k.hs, k.uid, k.ch, k.typ) }
+func (k memKey) String() string { return fmt.Sprintf("%d/%s/%q/%d", k.hs, k.uid, k.ch, k.typ) }
 
 type c16Model struct {
 	rows map[memKey]*metadb.UserChannelMembership
@@ -266,7 +266,7 @@ func (c *c16Cmd) describe() string {
 	default:
 		s := fmt.Sprintf("%s hs%d", c.kind, c.hs)
 		for _, e := range c.entries {
-			s += fmt.Sprintf(" [%s/%s/%d v%d join%d read%d del%d act%d tomb%v@%d upd%d]", e.UID, e.ChannelID, e.ChannelType, e.SourceVersion, e.JoinSeq, e.ReadSeq, e.DeletedToSeq, e.ActivatedAt, e.Tombstone, e.TombstoneAt, e.UpdatedAt)
+			s += fmt.Sprintf(" [%s/%q/%d v%d join%d read%d del%d act%d tomb%v@%d upd%d]", e.UID, e.ChannelID, e.ChannelType, e.SourceVersion, e.JoinSeq, e.ReadSeq, e.DeletedToSeq, e.ActivatedAt, e.Tombstone, e.TombstoneAt, e.UpdatedAt)
 		}
 		return s
 	}
@@ -656,7 +656,7 @@ func (w *c16World) scan(uid string, between func(page int)) {
 func c16List(rows []metadb.UserChannelMembership) string {
 	s := ""
 	for _, g := range rows {
-		s += fmt.Sprintf("(%s/%d act%d tomb%v)", g.ChannelID, g.ChannelType, g.ActivatedAt, g.Tombstone)
+		s += fmt.Sprintf("(%q/%d act%d tomb%v)", g.ChannelID, g.ChannelType, g.ActivatedAt, g.Tombstone)
 	}
 	return s
 }
